@@ -130,14 +130,74 @@ PROPS['C03'] = {
         'XML lexical forms, omitted optional type attributes (defaults) and metadata are outside (roxmltree; see C04 not applicable)'],
 }
 
+UNIT_RLIMIT = {'rd': 30}
+PROPS['C09'] = {
+    'level': 'proof',
+    'verus': ['bits', 'page_r', 'rd_top', 'rd'],
+    'claim': ('Termination (decreases clauses) and allocation bounds as postconditions/invariants of the real functions: every loop of the bit-stream '
+              'decoder, page reader, validate_crc, QueueReader::{available,pop_point,advance,parse_byte_streams} and PointCloudReaderRaw::next has a '
+              'decreases measure; each successful advance strictly advances the cursor, which is bounded by the logical file size, so the refill '
+              'loop ends; the raw iterator yields at most `records` points; memory held per stream is paid for by input already consumed '
+              '(buffer bytes <= cursor, queued values + undecoded bits <= 8 x cursor); stream buffers drop consumed bytes on append; extract_xml refuses '
+              'lengths above MAX_XML_SIZE before allocating; PagedReader::new refuses page sizes above 1 MiB before allocating; index/ignored '
+              'skips allocate at most the declared 16-bit length.'),
+    'trusted': GLOBAL_TRUSTED + [_DEV, _CRC_OFF],
+    'assumptions': [_DEV] + _RD_ASSUME + [
+        'the iterators are specified up to their first Err or None (the quantifier of C09)',
+        'known finding F4 (all records zero-width) is excluded by precondition and reported separately as KNOWN-FINDING',
+        'simple iterator and Blob::read are covered by units simple / blob when claimed there; XML parsing (roxmltree) time and memory are outside'],
+}
+
+PROPS['C08'] = {
+    'level': 'proof',
+    'verus': ['bits', 'page_r', 'rd_top', 'rd'],
+    'kani': ['norm_k'],
+    'claim': ('Absence of panics (arithmetic overflow, index/slice bounds, unwrap, clamp, ilog2, division) as implicit obligations of every reader-side '
+              'function under contract, with NO precondition on file content (only structural well-formedness of self): PagedReader::{new,seek_physical,'
+              'read_page,read,align} + restated read_exact, E57Reader::{validate_crc,raw_xml,get_u64,extract_xml}, CompressedVectorSectionHeader::read, '
+              'PacketHeader/Index/Data/Ignored::read, QueueReader::{new,available,pop_point,advance,parse_byte_streams}, BitPack::unpack_*, '
+              'ByteStreamReadBuffer::*, PointCloudReaderRaw::{new,next,size_hint}, integer_bits/bit_size, Range::{from_min_max,normalize,from_limits,'
+              'from_record_data_type} and normalize_value (Kani, full f64 domain). Functions taking a roxmltree::Node and the simple iterator/blob '
+              'paths are covered only where units simple/blob claim them.'),
+    'trusted': GLOBAL_TRUSTED + [_DEV, _CRC_OFF],
+    'assumptions': [_DEV] + _RD_ASSUME + [
+        'everything that parses XML (roxmltree, *::from_node, xml::*, root_from_document, Extension::vec_from_document) is NOT covered; str::parse does not panic is an argument by inspection, not a discharged obligation',
+        'Header::read and E57Reader::new glue are covered by unit fmt when claimed',
+        'known finding F4 (all records zero-width: unbounded allocation, abort) is reported under C09'],
+}
+PROPS['C17'] = {
+    'level': 'proof',
+    'verus': ['page_r', 'rd_top', 'rd'],
+    'claim': ('Every postcondition of the read-side functions is stated in terms of the device bytes and the arguments only, under the representation '
+              'invariant of PagedReader for an ARBITRARY admissible (offset, cached page, buffer) state: read/read_exact return lbyte(cursor+i); '
+              'extract_xml, get_u64, QueueReader::new, PointCloudReaderRaw::new start with absolute seeks and their results do not mention the previous '
+              'cursor; QueueReader::new creates fresh queues; the invariant (cache clause included) holds on every exit of read_page, i.e. also after '
+              'failed operations (F15 fixed), so any operation equals the same operation on a fresh reader (a fresh reader is one admissible state).'),
+    'trusted': GLOBAL_TRUSTED + [_DEV, _CRC_OFF],
+    'assumptions': [_DEV] + _RD_ASSUME + ['descriptor getters (&self clones) and XML are outside; Blob::read and the simple iterator are covered when units blob/simple are claimed'],
+}
+PROPS['C16'] = {
+    'level': 'proof',
+    'verus': ['page_w', 'page_r', 'rd_top'],
+    'claim': ('Device nondeterminism is part of the device model: read may return any short count, every operation may fail. Proved on the real bodies: '
+              'PagedWriter::read_current_page fills the page identically for every short-read schedule; every PagedWriter/PagedReader operation and '
+              'E57Reader::{get_u64,extract_xml} that returns Ok has seen no device error (ghost fault flag: Ok => failed unchanged; Err of a device op => '
+              'failed set), so a swallowed error fails a postcondition; flush Ok => device payload equals the logical stream; restated write_all / '
+              'read_exact loops (std provided methods) are verified against the extracted write / read, so results are independent of chunking.'),
+    'trusted': GLOBAL_TRUSTED + [_DEV, _CRC_OFF],
+    'assumptions': [_DEV, 'short WRITES of the device are absorbed by std write_all on the device (assumed in the device model contract)',
+                    'Drop for PagedWriter ignores flush errors by design and runs after finalize: outside',
+                    'E57Writer::finalize / PointCloudWriter / Blob layers are covered when units e57w/pcw/blob are claimed'],
+}
+
 FIX_COMMITS = ['4bb8197', '4c9a29a', '15147a8', '4e117ba', 'b93d656']
 
 _PENDING = 'unit not completed yet in the build round (applicable; see DESIGN.md §1) — not claimed until its obligations are discharged'
 NOT_APPLICABLE = {
     'C01': _PENDING, 'C02': _PENDING,
     'C04': 'lives entirely in format!-built strings and roxmltree parsing; no contract within reach of Verus (no str byte reasoning) or Kani (roxmltree does not finish) can state parse(serialise(x)) = x (DESIGN.md §6)',
-    'C05': _PENDING, 'C06': _PENDING, 'C08': _PENDING, 'C09': _PENDING, 'C10': _PENDING,
-    'C14': _PENDING, 'C15': _PENDING, 'C16': _PENDING, 'C17': _PENDING,
+    'C05': _PENDING, 'C06': _PENDING, 'C10': _PENDING,
+    'C14': _PENDING, 'C15': _PENDING, 
     'C18': 'about roxmltree name matching and element lookup over arbitrary XML trees; would need an assumed contract on the dependency, which decides nothing (DESIGN.md §6)',
     'C19': 'whole-file composition of C01+C03+C04 plus writer determinism; the XML half is out of reach and whole-program composition is not a per-function contract; decidable ingredients are discharged under C10/C11/C12 (DESIGN.md §6)',
     'C20': 'the tools are main() functions doing process and file I/O; there is no function to put under contract (DESIGN.md §6)',
